@@ -731,3 +731,22 @@ pub(crate) mod verif_hooks {
         core.context.clone()
     }
 }
+
+#[cfg(feature = "verif")]
+pub(crate) mod verif_hooks_rules {
+    use super::*;
+
+    /// `Core::evaluate_connection_rules` as the TLS and QUIC accept paths call it
+    pub fn evaluate_connection_rules(
+        context: &Arc<Context>,
+        client_ip: Option<std::net::IpAddr>,
+        client_random: Option<&[u8]>,
+    ) -> Result<(), String> {
+        Core::evaluate_connection_rules(
+            context,
+            client_ip,
+            client_random,
+            &log_utils::IdChain::empty(),
+        )
+    }
+}
